@@ -92,6 +92,15 @@ fn candidates(max_pieces: usize) -> Vec<String> {
         lits.push(s.into());
     }
     let mut out = Vec::new();
+    // long tokens with multi-byte characters at every offset around plausible truncation limits, in error positions
+    // (diagnostics quote or abbreviate the offending token)
+    for pad in (14..=66).step_by(1) {
+        let body = format!("{}{}", "a".repeat(pad), "\u{e9}\u{20ac}\u{1f600}");
+        for long in [format!("\"{body}\""), format!("-- {body}"), format!("--| {body}"), body.clone(), format!("+{body}"), format!(".{body}")] {
+            out.push(format!("fn {long} => 1"));
+            out.push(format!("ret 1 {long} )"));
+        }
+    }
     for l in &lits {
         out.push(format!("ret {l}"));
         out.push(format!("@[import({l})] _"));
@@ -150,6 +159,61 @@ pub fn replay(args: &[String]) -> i32 {
             0
         }
     }
+}
+
+/// Literal token language (C05 anchor "literal token forms"): every string of the documented literal grammar
+///   float: [+-]? digits '.' digits ([eE] [+-]? digits)?  |  [+-]? digits [eE] [+-]? digits        int: [+-]? digits
+/// (recognised here by a hand-written matcher, independent of the lexer's regexes) must lex as exactly ONE token of that
+/// kind spanning the whole string. All strings over {+,-,0,1,9,.,e,E} up to 7 characters.
+pub fn literal_tokens(_args: &[String]) -> i32 {
+    use logos::Logos;
+    use zydeco_surface::textual::Tok;
+    fn digits(b: &[u8], mut i: usize) -> Option<usize> { let s = i; while i < b.len() && b[i].is_ascii_digit() { i += 1; } if i > s { Some(i) } else { None } }
+    fn classify(b: &[u8]) -> u8 {
+        // 0 = neither, 1 = int, 2 = float
+        let mut i = 0;
+        if i < b.len() && (b[i] == b'+' || b[i] == b'-') { i += 1; }
+        let Some(j) = digits(b, i) else { return 0 };
+        if j == b.len() { return 1; }
+        let mut k = j;
+        let mut frac = false;
+        if b[k] == b'.' { let Some(m) = digits(b, k + 1) else { return 0 }; k = m; frac = true; if k == b.len() { return 2; } }
+        if b[k] == b'e' || b[k] == b'E' {
+            k += 1;
+            if k < b.len() && (b[k] == b'+' || b[k] == b'-') { k += 1; }
+            let Some(m) = digits(b, k) else { return 0 };
+            if m == b.len() { return 2; }
+        }
+        let _ = frac;
+        0
+    }
+    const A: &[u8] = b"+-019.eE";
+    let mut n = 0u64;
+    let mut buf: Vec<u8> = Vec::new();
+    for len in 1..=7usize {
+        let total = A.len().pow(len as u32);
+        for mut code in 0..total {
+            buf.clear();
+            for _ in 0..len { buf.push(A[code % A.len()]); code /= A.len(); }
+            let kind = classify(&buf);
+            if kind == 0 { continue; }
+            let s = std::str::from_utf8(&buf).unwrap();
+            n += 1;
+            let toks: Vec<_> = Tok::lexer(s).spanned().collect();
+            let ok = toks.len() == 1 && toks[0].1 == (0..s.len()) && match (&toks[0].0, kind) {
+                | (Ok(Tok::IntLit(t)), 1) => *t == s,
+                | (Ok(Tok::FloatLit(t)), 2) => *t == s,
+                | _ => false,
+            };
+            if !ok {
+                let detail = format!("`{s}` is a {} literal of the documented grammar but lexes as {:?}", if kind == 1 { "integer" } else { "decimal" }, toks.iter().map(|(t, r)| format!("{:?}@{:?}", t, r)).collect::<Vec<_>>());
+                println!("{{\"found\":true,\"tried\":{n},\"input\":{},\"clause\":\"LITERAL-TOKEN\",\"detail\":{}}}", esc(s), esc(&detail));
+                return 1;
+            }
+        }
+    }
+    println!("{{\"found\":false,\"tried\":{n}}}");
+    0
 }
 
 /// Assumption A3: every string of the lexer's FloatLit rule parses as f64. Enumerates all strings over
